@@ -435,6 +435,30 @@ def _stringify_operand(node: Node, precedence: int) -> str:
     return f"({text})" if _precedence(node) < precedence else text
 
 
+def stringify_operand(node: Node, operator: str) -> str:
+    """
+    Same as `stringify()`, for an expression that a suggestion pastes in as an operand of
+    `operator`: it is put in parentheses if it would not stay one operand there. Use `"."`
+    for the object of an attribute access, method call or subscript, and `"{}"` for a
+    replacement field of an f-string.
+    """
+
+    if operator == ".":
+        precedence = _ATOM_PRECEDENCE
+
+    elif operator == "{}":
+        precedence = 2
+
+    elif operator == "not":
+        precedence = 5
+
+    else:
+        # Operands of a comparison bind tighter than the comparison itself
+        precedence = _BINARY_PRECEDENCE.get(operator, 7)
+
+    return _stringify_item(node, precedence)
+
+
 def _stringify_item(node: Node, precedence: int = 1) -> str:
     """Same as `stringify()`, but for a sub-expression: add parentheses where they are needed."""
 
